@@ -439,4 +439,26 @@ p("c07-p-gate-first", "C07", PYF,
   "        if not isinstance(python_regex, str):\n            python_regex = python_regex.pattern\n        else:\n            re.compile(python_regex)  # Check if it is valid\n",
   "        if isinstance(python_regex, str):\n            re.compile(python_regex)\n        else:\n            python_regex = python_regex.pattern\n")
 
+# ----------------------------------------------------------------------------- C14
+LLF = "pyformlang/cfg/llone_parser.py"
+b("c14-raise-valueerror", "C14", LLF,
+  "                else:\n                    raise NotParsableException\n", "                else:\n                    raise ValueError\n",
+  "explicit-raises")
+b("c14-table-subscript", "C14", LLF,
+  "                rule_applied = list(parsing_table.get(current.value, {})\n                                    .get(word[-1], []))",
+  "                rule_applied = list(parsing_table[current.value]\n                                    .get(word[-1], []))",
+  "table-lookups-use-get")
+b("c14-cell-overwrite", "C14", LLF,
+  "                if first not in llone_parsing_table[production.head]:\n                    llone_parsing_table[production.head][first] = []\n                llone_parsing_table[production.head][first].append(\n                    production\n                )\n        return llone_parsing_table",
+  "                llone_parsing_table[production.head][first] = [production]\n        return llone_parsing_table",
+  "cells-accumulate")
+b("c14-first-always-requeue", "C14", LLF,
+  "                if len(first_set[production.head]) != length_before:\n                    for triggered in triggers.get(production.head, []):\n                        to_process.append(triggered)",
+  "                for triggered in triggers.get(production.head, []):\n                    pass", "requeue-on-growth")
+b("c14-parsable-ignores-cells", "C14", LLF,
+  "                if len(terminal) > 1:\n                    return False\n", "                pass\n", "verdict-reads-every-cell")
+p("c14-p-rename", "C14", LLF,
+  "        parsing_table = self.get_llone_parsing_table()\n        parse_tree = ParseTree(self._cfg.start_symbol)",
+  "        parsing_table = self.get_llone_parsing_table()\n        root_symbol = self._cfg.start_symbol\n        parse_tree = ParseTree(root_symbol)")
+
 VARIANTS = V
